@@ -44,7 +44,7 @@ class Projector:
         return f"O{v}_{w}"
 
 
-def record(inst, duck, strain, keys, rtol=1e-9, atol=1e-11):
+def record(inst, duck, strain, keys, rtol=1e-9, atol=1e-11, tl=None):
     """Run resolve/calculate/get_* on the real class with recording.  -> (events, tasklist, results, info)"""
     import cij.core.tasks as T
     from cij.util import _trace
@@ -53,7 +53,8 @@ def record(inst, duck, strain, keys, rtol=1e-9, atol=1e-11):
         raise MachineryError("CIJ_VERIF_TRACE hooks are not enabled in this process")
     proj = Projector(inst, strain, rtol, atol)
     raw, looks = [], []
-    tl = T.PhononContributionTaskList(duck)
+    if tl is None:
+        tl = T.PhononContributionTaskList(duck)       # (a list handed in is re-used: resolve() starts over on it)
     store_name = {id(tl.modulus_isothermal_values): "iso", id(tl.modulus_adiabatic_values): "adi"}
     orig_get = T.PhononContributionTaskResults.__getitem__
 
